@@ -20,7 +20,9 @@ import (
 // set by c12_sched.go in the sched build variant
 var c12Sched func(c *core.Ctx, nontriv *atomic.Int64) bool
 
-func init() { core.Register(core.Check{ID: "C12", Level: "exploration", Run: runC12}) }
+func init() {
+	core.Register(core.Check{ID: "C12", Level: "exploration", Run: func(c *core.Ctx) { runC12(c); reentrancyPass(c, "C12") }})
+}
 
 var (
 	c12Three  = big.NewInt(3)
